@@ -271,3 +271,11 @@ class PrefixSum:
     def step(self, p, i):
         _lemma_uses.append(("unfold:" + self.name, "Finset.sum_range_succ"))
         return z3.Implies(i >= 0, self.f(*p, i + 1) == self.f(*p, i) + self.term(*p, i))
+
+    def mono(self, p, a, b):
+        """prefix sums of non-negative terms are monotone (Finset.sum_le_sum_of_subset_of_nonneg)"""
+        _lemma_uses.append(("mono:" + self.name, "Finset.sum_le_sum_of_subset_of_nonneg"))
+        i = z3.Int(self.name + "!mi")
+        return z3.Implies(z3.And(0 <= a, a <= b,
+                                 z3.ForAll([i], z3.Implies(z3.And(a <= i, i < b), self.term(*p, i) >= 0))),
+                          self.f(*p, a) <= self.f(*p, b))
